@@ -33,6 +33,7 @@ def run(ctx):
   rule_denom(ctx)
   rule_pm1(ctx)
   rule_hw(ctx)
+  rule_hw_prune(ctx)
   rule_constructions(ctx)
   from . import c04
   c04.rule_exhaust(ctx, c04.SEARCH_FUNCS_C05, "R-C05-EXHAUST")
@@ -42,7 +43,7 @@ def run(ctx):
   ctx.expect("R-C05-CUT", 5, "two checks")
   ctx.expect("R-C05-DENOM", 2, "two denominators")
   ctx.expect("R-C05-PM1", 4, "product, gate, both-smooth, default")
-  ctx.expect("R-C05-HW", 3, "thresholds + defaults + verdict")
+  ctx.expect("R-C05-HW", 4, "thresholds + defaults + verdict + pruning")
 
 
 def fold_block(stmts, name, env=None):
@@ -242,6 +243,50 @@ def rule_hw(ctx):
   calls = chk.calls("repo:rsa_util:CheckLowHammingWeight")
   okv = okv and bool(calls) and all(len(e.data["args"]) == 1 and not e.data["kwargs"] for e in calls)
   ctx.record(R, f.where, "weak without factors <=> minv <= threshold_weak; check uses the defaults", okv, "potentially_weak = minv <= threshold_weak" if okv else "verdict predicate / call changed")
+
+
+def rule_hw_prune(ctx):
+  """Branch-and-bound of CheckLowHammingWeight: a pair of partial factors (p0, q0) may only be discarded when it violates the documented invariant
+  (p0 << bit) * (q0 << bit) <= n < ((p0 + 1) << bit) * ((q0 + 1) << bit), i.e. 0 <= rem0 <= p0 + q0 for rem0 = (n >> 2 bit) - p0 q0.  A stricter
+  test drops the branch that leads to the factors (primes with long runs of leading ones sit exactly on the upper edge)."""
+  R = "R-C05-HW"
+  repo = ctx.repo
+  from .c12 import canon_le
+  f = repo.func("rsa_util", "CheckLowHammingWeight")
+  w = sym.Walker(repo, f)
+  w.run()
+  n = P("param", f.params()[0])
+  pushes = [e for e in w.events if e.kind == "call" and e.data["name"].startswith("local:") and len(e.data["args"]) >= 2 and
+            not all(as_poly(a).as_int() is not None for a in e.data["args"][:2] if isinstance(a, Poly))]
+  worst = None
+  seen_hi = seen_lo = 0
+  for e in pushes:
+    p0, q0 = as_poly(e.data["args"][0]), as_poly(e.data["args"][1])
+    n0s = {a for fc in e.facts if fc[0] == "cmp" for side in fc[2:4] if isinstance(side, Poly) for a in side.atoms() if a.kind == "shr" and as_poly(a.args[0]) == n}
+    if len(n0s) != 1:
+      continue
+    rem = Poly.atom(next(iter(n0s))) - p0 * q0
+    for fc in e.facts:
+      cl = canon_le(fc) if fc[0] == "cmp" and fc[1] in ("Lt", "LtE", "Gt", "GtE") else None
+      if cl is None:
+        continue
+      E, b = cl
+      d_hi = E - (rem - p0 - q0)
+      d_lo = E + rem
+      if d_hi.is_const() and d_hi.as_int() is not None:
+        seen_hi += 1
+        slack = b - d_hi.as_int()          # rem - p0 - q0 <= slack
+        if slack < 0:
+          worst = "a pair with rem0 = p0 + q0%s is discarded (kept only for rem0 - p0 - q0 <= %d), although n < (p0 + 1)(q0 + 1) 4^bit still holds there" % (" - %d" % (-slack - 1) if slack < -1 else "", slack)
+      elif d_lo.is_const() and d_lo.as_int() is not None:
+        seen_lo += 1
+        slack = b - d_lo.as_int()          # -rem <= slack
+        if slack < 0:
+          worst = "a pair with rem0 = %d is discarded although p0 q0 4^bit <= n holds there" % (-slack - 1)
+  if not pushes or not seen_hi:
+    ctx.incomplete(R, f.where, "pruning keeps every pair inside the invariant", "no pruned push of a partial factor pair found (%d pushes, %d upper tests)" % (len(pushes), seen_hi))
+    return
+  ctx.record(R, f.where, "pruning keeps every pair inside the invariant", worst is None, worst or "pairs are kept exactly for 0 <= rem0 <= p0 + q0 (%d pushes examined)" % len(pushes))
 
 
 # ------------------------------------------------------------------ lattice / quadratic constructions (shape = documented method)
